@@ -244,6 +244,11 @@ def replay_spellings(a):
         ("rule r {\n  a == 1\n}\n", "rule r {\n  a == 1\n}\n# the file ends with this comment, no newline after it"),
         ("rule r {\n  a == 1\n}\n", "rule r {\n  a == 1\n}  # end"),
         ("rule r {\n  a == 1\n}\n", "# head\nrule r {  # open\n  a == 1  # clause\n  # own line\n}\n#"),
+        ("rule a {\n  a == 1\n}\nrule b {\n  a == 2\n}\nrule r {\n  b or\n  a\n}\n", "rule a {\n  a == 1\n}\nrule b {\n  a == 2\n}\nrule r {\n  b   # remark\n  or a\n}\n"),
+        ("rule a {\n  a == 1\n}\nrule b {\n  a == 2\n}\nrule r {\n  b or a\n}\n", "rule a {\n  a == 1\n}\nrule b {\n  a == 2\n}\nrule r {\n  b # one\n  # two\n  or # three\n  a\n}\n"),
+        ("rule r {\n  Resources.*[ Type == 'AWS::S3::Bucket' ] {\n    Properties.x == 1\n  } or a == 1\n}\n", "rule r {\n  Resources.*[ Type == 'AWS::S3::Bucket' ] {\n    Properties.x == 1\n  }   # the block ends here\n  or a == 1\n}\n"),
+        ("rule r {\n  when a == 1 {\n    a == 2\n  } or a == 1\n}\n", "rule r {\n  when a == 1 {\n    a == 2\n  } # remark\n  or a == 1\n}\n"),
+        ("rule r {\n  a == 2 or a == 1\n}\n", "rule r {\n  a == 2 # remark\n  or a == 1\n}\n"),
         ("a == 1\n", "rule default {\n  a == 1\n}\n"),
         ("a == 2 or a == 1\n", "rule default {\n  a == 2 or a == 1\n}\n"),
         ("a == 1 or a == 2\na >= 1\n", "rule default {\n  a == 1 or a == 2\n  a >= 1\n}\n"),
@@ -523,6 +528,62 @@ def comment_combinators(a):
         a.candidates.append(c)
 
 
+def layout_skippers(a):
+    """C14 (`comments and line breaks between clauses do not change meaning`): wherever the grammar allows layout between two tokens the
+    parser must skip it with the comment-aware skippers (zero_or_more_ws_or_comment / one_or_more_ws_or_comment); nom's bare whitespace
+    skippers (multispace0 / multispace1 / space0 / space1) see no comments. Enumerated from the MIR of the current tree: the functions
+    that hand a BARE skipper to a combinator; they must be the stated ones (the two comment recognisers themselves, and five places
+    where the grammar allows blanks only: `r( 1, 2 )` ranges, `not<blank>`, `[ k | ...`, call arguments, parameter names). And `or_join`,
+    the separator of a disjunction, is delimited(zero_or_more_ws_or_comment, or_term, one_or_more_ws_or_comment). Site enumeration +
+    constants: the solver part is degenerate."""
+    import collections
+    allowed = {"comment2": {"multispace0"}, "white_space_or_comment": {"multispace1"}, "range_value": {"space0"}, "not": {"space1"},
+               "variable_capture_in_map_or_index": {"space0"}, "call_expr": {"multispace0"}, "rule_clause": {"space0"},
+               "parameter_names": {"multispace0"}}
+    found = {}
+    for m in re.finditer(r"^fn ([^\n]*?)\((?:_1|\))", a.mir, re.M):
+        name = m.group(1)
+        end = a.mir.index("\n}\n", m.start())
+        kinds = set()
+        for ln in a.mir[m.start():end].splitlines():
+            st = ln.strip()
+            if st.startswith(("let ", "debug ", "scope ", "fn ")):
+                continue
+            kinds.update(re.findall(r"\b(multispace0|multispace1|space0|space1)::<", st))
+        if kinds:
+            found[re.sub(r"^(?:rules::)?(?:parser::)?", "", name)] = kinds
+    extra = {k: sorted(v - allowed.get(k.split("::")[0], set())) for k, v in found.items() if v - allowed.get(k.split("::")[0], set())}
+    a.ob.check("parser/layout/bare-whitespace-skippers-only-where-stated", [], [], "true" if extra else "false",
+               f"functions handing a bare whitespace skipper (no comments) to a combinator: {sorted(found)} - all within the stated table; "
+               f"not in the table: {extra} (site enumeration over the MIR; degenerate solver part)")
+    item = a.ob.items[-1]
+    item["paths"], item["cut_by_unroll_bound"], item["unroll"] = max(1, len(found)), 0, 0
+    cands = [item] if item["status"] == "refuted" else []
+    if not found:
+        item["status"] = "inconclusive"
+    try:
+        top = mirsmt.find_fn(a.mir, r"(?:(?:rules::)?parser::)?or_join")
+        ok = bool(re.search(r"= delimited::<[^\n]*>\(zero_or_more_ws_or_comment, or_term, one_or_more_ws_or_comment\) ->", top))
+    except Untranslatable:
+        ok = None
+    if ok is None:
+        a.ob.items.append({"obligation": "parser/or_join/comment-aware-on-both-sides", "describe": "or_join not found", "verdicts": {},
+                           "status": "inconclusive", "model": None})
+    else:
+        a.ob.check("parser/or_join/comment-aware-on-both-sides", [], [], "false" if ok else "true",
+                   "or_join = delimited(zero_or_more_ws_or_comment, or_term, one_or_more_ws_or_comment): comments and line breaks are skipped "
+                   "before and after the `or` of a disjunction (constructor and operands read off the MIR; degenerate solver part)")
+        it2 = a.ob.items[-1]
+        it2["paths"], it2["cut_by_unroll_bound"], it2["unroll"] = 1, 0, 0
+        if it2["status"] == "refuted":
+            cands.append(it2)
+    a.fns.append("rules::parser::or_join + every parser function that uses a bare whitespace skipper")
+    for c in cands:
+        c["replay"] = replay_spellings(a)
+        c["reproduced"] = c["replay"].get("reproduced", False)
+        a.candidates.append(c)
+
+
 from mirblocks import type_block, guard_block
 
 
@@ -533,5 +594,5 @@ def this_and_index_forms(a):
     mirquery.q_dispatch(a)
 
 
-SITES = {"C14": [keyword_tables, type_block_desugar, parser_clause_wiring, quoting_wiring, type_block, guard_block, this_and_index_forms, index_spellings_agree, rules_file_sorting, comment_combinators],
+SITES = {"C14": [keyword_tables, type_block_desugar, parser_clause_wiring, quoting_wiring, type_block, guard_block, this_and_index_forms, index_spellings_agree, rules_file_sorting, comment_combinators, layout_skippers],
          "C18": [function_arity_gate], "C08": [function_arity_gate]}
